@@ -162,6 +162,9 @@ Definition user_step (w : sworld) (tag : nat) (a : list nat) (text : str) : swor
                             else if (act =? 2)%nat then FClose
                             else if (act =? 3)%nat then FQuit
                             else if (Nat.modulo e 5 =? 0)%nat then FRedraw 0 else FReprompt) |>
+  else if (tag =? T_SETUP_BEGIN)%nat then
+    (* a setup() with commands of its own is entered for entry a0: the open _process_screen remembers it (state 0, id + 1) *)
+    w <| sw_pframes := match sw_pframes w with _ :: r => {| pf_state := 0; pf_id := S (nth0 a 0) |} :: r | [] => [] end |>
   else w.
 
 Definition sworld_step (w : sworld) (e : event) : sworld :=
@@ -194,6 +197,13 @@ Definition sworld_step (w : sworld) (e : event) : sworld :=
   | _ => w
   end.
 
+(* the innermost open _process_screen is the one whose setup() — one that runs commands — was entered for entry [id]
+   and has not been followed by a refresh yet.  Such a setup() may have changed the stack: the entry it belongs to need
+   not be the top any more when setup() returns and when the scheduler then calls refresh() (which is followed by the
+   identity check `top_screen != self._get_last_screen()`, so nothing is drawn) *)
+Definition in_setup_of (w : sworld) (id : nat) : bool :=
+  match sw_pframes w with f :: _ => (pf_state f =? 0)%nat && (pf_id f =? S id)%nat | [] => false end.
+
 (* ================================================================== C04: the honest stack *)
 Definition chk_C04 (w : sworld) (e : event) : bool :=
   match e with
@@ -225,12 +235,13 @@ Definition chk_C04 (w : sworld) (e : event) : bool :=
         | None => false
         end
     else if (tag =? T_OP)%nat then match sw_expect w with [] => true | _ => false end
-    else if (tag =? T_SETUP)%nat || (tag =? T_REFRESH)%nat || (tag =? T_SHOW)%nat then
-      (* only the top of the stack is set up, refreshed, drawn *)
+    else if (tag =? T_SETUP)%nat || (tag =? T_REFRESH)%nat || (tag =? T_SHOW)%nat || (tag =? T_SETUP_BEGIN)%nat then
+      (* only the top of the stack is set up, refreshed, drawn; the return of a setup() that ran commands, and the
+         refresh() that follows it, concern the entry that setup() was entered for *)
       match top_entry w with
       | Some t => (en_id t =? nth0 a 0)%nat && (en_scr t =? nth0 a 1)%nat
       | None => false
-      end
+      end || (negb (tag =? T_SHOW)%nat && negb (tag =? T_SETUP_BEGIN)%nat && in_setup_of w (nth0 a 0))
     else if (tag =? T_SEPARATOR)%nat then
       match top_entry w with Some t => (en_scr t =? nth0 a 0)%nat | None => false end
     else true
@@ -247,10 +258,15 @@ Definition chk_C08 (w : sworld) (e : event) : bool :=
   | EUser tag a _ =>
     let args_ok := match top_entry w with Some t => (en_args t =? nth0 a 2)%nat | None => false end in
     if (tag =? T_SETUP)%nat then
-      negb (mem (nth0 a 1) (sw_ready w)) && args_ok &&
+      (negb (mem (nth0 a 1) (sw_ready w)) && args_ok || in_setup_of w (nth0 a 0)) &&
       match sw_pframes w with f :: _ => (pf_state f =? 0)%nat | [] => false end
+    else if (tag =? T_SETUP_BEGIN)%nat then
+      (* a setup() is entered only for a screen that is not ready, with the entry's arguments, at the start of a _process_screen *)
+      negb (mem (nth0 a 1) (sw_ready w)) && args_ok &&
+      match sw_pframes w with f :: _ => (pf_state f =? 0)%nat && (pf_id f =? 0)%nat | [] => false end &&
+      match sw_failed w with Some _ => false | None => true end
     else if (tag =? T_REFRESH)%nat then
-      mem (nth0 a 1) (sw_ready w) && args_ok &&
+      mem (nth0 a 1) (sw_ready w) && (args_ok || in_setup_of w (nth0 a 0)) &&
       match sw_pframes w with f :: _ => (pf_state f =? 0)%nat | [] => false end
     else if (tag =? T_SHOW)%nat then
       (* drawn only right after the refresh of the same entry, in the same _process_screen *)
@@ -282,7 +298,8 @@ Definition scr_visible (w : sworld) (scr : nat) : bool :=
 Definition chk_C05_gen (strict : bool) (w : sworld) (e : event) : bool :=
   match e with
   | EUser tag a _ =>
-    if (tag =? T_SETUP)%nat || (tag =? T_REFRESH)%nat || (tag =? T_SHOW)%nat then negb (shielded w (nth0 a 0))
+    if (tag =? T_SETUP)%nat || (tag =? T_REFRESH)%nat || (tag =? T_SHOW)%nat || (tag =? T_SETUP_BEGIN)%nat
+    then negb (shielded w (nth0 a 0))
     else if (tag =? T_INPUT)%nat then scr_visible w (nth0 a 0)
     else if (tag =? T_MODAL_RETURN)%nat then
       (* the modal push returns only after the entry (or what replaced it) was closed.  Not so when the
